@@ -454,8 +454,11 @@ class Arc2D(object):
         y_min = ((mny, -r, -r, mny), (mny, mny, -r, mny),
                  (mny, mny, mny, mny), (-r, -r, -r, mny))
         # select the desired values from the extremum matrices
-        min_pt = (x_min[end_quad][start_quad], y_min[end_quad][start_quad])
-        max_pt = (x_max[end_quad][start_quad], y_max[end_quad][start_quad])
+        if start_quad == end_quad and self.is_inverted:  # arc wraps around the circle
+            min_pt, max_pt = (-r, -r), (r, r)
+        else:
+            min_pt = (x_min[end_quad][start_quad], y_min[end_quad][start_quad])
+            max_pt = (x_max[end_quad][start_quad], y_max[end_quad][start_quad])
         self._min = Point2D(min_pt[0] + self.c.x, min_pt[1] + self.c.y)
         self._max = Point2D(max_pt[0] + self.c.x, max_pt[1] + self.c.y)
 
